@@ -525,6 +525,8 @@ class ExprMixin(object):
         if (is_numeric(a) or isinstance(a, (P, App, Opaque))) and (is_numeric(b) or isinstance(b, (P, App, Opaque))):
             if strish(a) or strish(b):
                 if sym in ("==", "!="):
+                    if isinstance(a, Term) and isinstance(b, Term) and a == b:
+                        return Const(sym == "==")
                     r = App("streq", tuple(sorted((a, b), key=lambda t: t.sortkey())))
                     return r if sym == "==" else mk_not(r)
             pa = self.to_poly(st, a, node, module)
